@@ -20,6 +20,7 @@ func TestVerifC06(t *testing.T) {
 	state, cleanup := vfNewState(t)
 	defer cleanup()
 	shapes := vfNewShapes(t, state)
+	var rig *vfTLSRig
 	for _, line := range vio.ops {
 		f := strings.Fields(line)
 		if len(f) < 2 {
@@ -46,6 +47,17 @@ func TestVerifC06(t *testing.T) {
 				out = vfCheckAuthOut(info, err, w)
 			}()
 			vio.emit("%s", out)
+		case "tls":
+			// tls <path> <client cert km|ipin|ipout|foreign|none> <denied 0|1>  — real TLS handshake
+			if len(f) != 4 {
+				vio.emit("bad-op")
+				continue
+			}
+			if rig == nil {
+				rig = vfNewTLSRig(t, state, shapes)
+				defer rig.srv.Close()
+			}
+			vio.emit("%s", rig.probe(t, state, shapes, f[1], f[2], f[3] == "1"))
 		case "rt":
 			// rt <path> <webui csv|-> <7 shape tokens>
 			if len(f) != 10 {
@@ -85,7 +97,7 @@ func vfDBDigest(t *testing.T, state *RuntimeState) string {
 func vfSeedProfiles(t *testing.T, state *RuntimeState) {
 	for _, u := range []string{"alice", "bob", "username"} {
 		profile := &userProfile{}
-		profile.U2fAuthData = map[int64]*u2fAuthData{1: {Enabled: true, Name: "tok"}}
+		profile.U2fAuthData = map[int64]*u2fAuthData{} // a nil Registration would make the sign/register handlers panic
 		profile.TOTPAuthData = map[int64]*totpAuthData{1: {Enabled: true, Name: "totp", EncryptedSecret: [][]byte{[]byte("x")}}}
 		profile.WebauthnData = map[int64]*webauthAuthData{}
 		if err := state.SaveUserProfile(u, profile); err != nil {
